@@ -121,6 +121,45 @@ def rule_awgn(repo: Repo, rep: Report) -> int:
     return n
 
 
+def laplace_sampler_evaluated(sm: FuncInfo):
+    """_get_laplacian_noise as a function of its uniform draw u, evaluated (own arithmetic) on a grid of u in (0, 1): it must
+    be sign(u - 1/2) * -ln(1 - 2|u - 1/2|), the inverse CDF of the unit-scale Laplacian; the cap of the magnitude near
+    u -> 0, 1 is read off at the ends.  Returns (OK | VIOLATION | None, detail, cap c of 2|u - 1/2| or None)."""
+    import math
+
+    from ..constfold import PySeq, Unfoldable
+    from ..frag import FragRaise, FragReturn, run_fragment
+
+    grid = [k / 40 for k in range(1, 40)] + [0.5 + 1e-3, 0.5 - 1e-3]
+    ends = [1e-12, 1.0 - 1e-12]
+    draws = {"n": 0}
+
+    def rand(*a, **k):
+        draws["n"] += 1
+        return list(grid + ends)
+
+    params = {p_: None for p_ in sm.params if p_ != "self"}
+    params.update({"shape": PySeq([len(grid) + 2]), "device": "cpu"})
+    try:
+        run_fragment(sm.body, params, {}, ctors={"torch.rand": rand}, max_steps=100000, materialise=True)
+        return None, "no value returned", None
+    except FragReturn as ret:
+        out = ret.value
+    except (Unfoldable, FragRaise, TypeError, ValueError, ZeroDivisionError) as exc:
+        return None, str(exc), None
+    if draws["n"] != 1:
+        return None, f"{draws['n']} uniform draws", None
+    if not (isinstance(out, list) and len(out) == len(grid) + 2 and all(isinstance(v, (int, float)) and not isinstance(v, bool) for v in out)):
+        return None, "the sampler does not return one real number per draw", None
+    for u, got in zip(grid, out):
+        want = math.copysign(1.0, u - 0.5) * -math.log(1 - 2 * abs(u - 0.5)) if u != 0.5 else 0.0
+        if abs(got - want) > 1e-9 * max(1.0, abs(want)):
+            return VIOLATION, f"for the uniform draw u = {u} the sampler returns {got!r}; the inverse CDF of the unit-scale Laplacian gives sign(u - 1/2) * -ln(1 - 2|u - 1/2|) = {want!r}: the samples are not Laplacian with variance 2, so every Laplacian configuration delivers another noise power than configured", None
+    tmax = min(abs(out[-2]), abs(out[-1]))
+    cap = 1.0 - math.exp(-tmax) if tmax < 27 else None
+    return OK, f"equals sign(u - 1/2) * -ln(1 - 2|u - 1/2|) on {len(grid)} draws (one uniform draw feeds sign and magnitude)", cap
+
+
 def rule_laplacian(repo: Repo, rep: Report) -> int:
     fi = repo.func(AN, "LaplacianChannel.forward")
     n = 0
@@ -148,6 +187,12 @@ def rule_laplacian(repo: Repo, rep: Report) -> int:
                 "torch.sign(torch.rand(shape, device=device) - 0.5) * -torch.log1p(-(2 * torch.abs(torch.rand(shape, device=device) - 0.5)))",
             ],
         )
+        if s != OK:
+            # another spelling of the inverse CDF: the sampler is evaluated as a function of its one uniform draw on a grid
+            es, ed, ecap = laplace_sampler_evaluated(sm)
+            if es is not None:
+                s, d = es, ed
+                b = {"_EPSMAX": ast.Constant(ecap)} if es == OK and ecap is not None else None
         rep.add("LAPLACE-UNIT", sm, f"sampler: {unparse(e)[:200]}", s, d or "unit-scale Laplace (variance 2) by inverse CDF", node=r)
         n += 1
         if s == OK and b and "_EPSMAX" in b:
